@@ -560,6 +560,21 @@ def model_strptime_classmethod(date_string, fmt):
     return mod._strptime_datetime(_dt.datetime, date_string, fmt)
 
 
+EPOCH_ORDINAL = 719163  # date(1970, 1, 1).toordinal()
+
+
+def model_fromtimestamp(timestamp, tz=None):
+    """datetime.fromtimestamp(seconds, tz): the instant `seconds` after the epoch, expressed in tz
+    (an aware datetime).  Without tz the system zone would be used: not modelled."""
+    if tz is None:
+        raise Unsupported("datetime.fromtimestamp() without tz (system local zone)")
+    if not isinstance(timestamp, (int, SInt)):
+        raise Unsupported("fromtimestamp(%s)" % type(timestamp).__name__)
+    inst = EPOCH_ORDINAL * cal.US_DAY + timestamp * 1000000
+    utc = cal.SDateTime.from_wall(inst, __import__("datetime").timezone.utc)
+    return zone.astimezone(utc, tz)
+
+
 def _build_tables():
     global _pattern_types
     import calendar
@@ -599,6 +614,7 @@ def _build_tables():
             reg(getattr(mod, name), (lambda n: lambda pattern, *a, **k: _re_func(n, pattern, a, k))(
                 name), "%s.%s" % (mod.__name__, name))
     MODELS[(_dt.datetime, "strptime")] = model_strptime_classmethod
+    MODELS[(_dt.datetime, "fromtimestamp")] = model_fromtimestamp
     # the patched _strptime copy's calendar module is also a private copy: same functions
     pc = sys.modules.get("calendar_patched")
     if pc is not None:
